@@ -172,7 +172,7 @@ def plan():
     for (n, m, kind) in ((1, 1, "stamp"), (1, 1, "interval"), (2, 1, "stamp"), (1, 2, "interval"), (2, 2, "stamp"),
                          (2, 2, "interval")):
         quick = n * m <= 2
-        obs.append(Ob("match-geo-%dx%d-%s" % (n, m, kind), ob_match_geo, "real", 3000 if not quick else 900,
+        obs.append(Ob("match-geo-%dx%d-%s" % (n, m, kind), ob_match_geo, "real", 900,
                       dict(n=n, m=m, kind=kind), q if quick else ("thorough",), twins=("paired", "unpaired"),
                       twin_timeout=300))
     for n in range(0, 4):
